@@ -511,6 +511,111 @@ func TestC18Pollers(t *testing.T) {
 	rec.Sample(true, map[string]interface{}{"concurrent_endpoint_readers": "2..8", "observers": 4, "seconds_per_round": 1.5})
 }
 
+// TestC18Torn: observers next to several readers polling as fast as they can.
+// Readers that follow each other closely make periods of a handful of
+// observations, in which nothing is overwritten in the sample ring.  The
+// observers take their values from one shared counter, descending in even
+// rounds and ascending in odd ones, and pace themselves in half of the rounds:
+// an observation that were folded into the extremes of one period but counted
+// and kept in the next would be the largest (smallest) value kept in that next
+// period and lie outside its reported [min, max].  Every report must have
+// min <= every percentile <= max, and the counts of all reports must add up to
+// the observations made.
+func TestC18Torn(t *testing.T) {
+	c18Setup()
+	rec := evid.For("C18")
+	rounds := 4
+	if thorough() {
+		rounds = 60
+	}
+	shard, _ := evid.Shard()
+	for round := 0; round < rounds; round++ {
+		readMetrics()
+		descending := (round+shard)%2 == 0
+		paced := (round/2+shard)%2 == 0
+		pollers := []int{4, 6, 3, 8}[(round+shard)%4]
+		next := uint64(1) << 40
+		var made uint64
+		var stop, stopObs int32
+		var owg, pwg sync.WaitGroup
+		for w := 0; w < 4; w++ {
+			owg.Add(1)
+			go func() {
+				defer owg.Done()
+				n := uint64(0)
+				for atomic.LoadInt32(&stopObs) == 0 {
+					var v uint64
+					if descending {
+						v = atomic.AddUint64(&next, ^uint64(0))
+					} else {
+						v = atomic.AddUint64(&next, 1)
+					}
+					metrics.ObserveHist(c18Hist, v)
+					n++
+					if paced {
+						for i := 0; i < 20; i++ {
+							runtime.Gosched()
+						}
+					} else if n%4096 == 0 {
+						runtime.Gosched()
+					}
+				}
+				atomic.AddUint64(&made, n)
+			}()
+		}
+		var mu sync.Mutex
+		var total uint64
+		reads, nonEmpty, small := 0, 0, 0
+		problem := ""
+		check := func(hp histPeriod) {
+			mu.Lock()
+			defer mu.Unlock()
+			total += hp.Count
+			reads++
+			if !hp.HasPctls || hp.Count == 0 {
+				return
+			}
+			nonEmpty++
+			if hp.Count <= 8 {
+				small++
+			}
+			lo, hi := hp.Pctls["percentile0"], hp.Pctls["percentile100"]
+			for _, pt := range pctlTags {
+				if v := hp.Pctls[pt]; (v < lo || v > hi) && problem == "" {
+					problem = fmt.Sprintf("report %d (%d observations, %d kept) has %s = %d outside [min %d, max %d]", reads, hp.Count, hp.Kept, pt, v, lo, hi)
+				}
+			}
+		}
+		for p := 0; p < pollers; p++ {
+			pwg.Add(1)
+			go func() {
+				defer pwg.Done()
+				for atomic.LoadInt32(&stop) == 0 {
+					check(readHist(readMetricsNoGC(), "verif_c18_plain"))
+				}
+			}()
+		}
+		time.Sleep(1500 * time.Millisecond)
+		atomic.StoreInt32(&stopObs, 1)
+		owg.Wait()
+		atomic.StoreInt32(&stop, 1)
+		pwg.Wait()
+		check(readHist(readMetrics(), "verif_c18_plain"))
+		rec.Case(nonEmpty >= 100 && small >= 1, fmt.Sprintf("torn|%v|%v|%d|%d|%d|%d", descending, paced, pollers, shard, round, nonEmpty), "hist-small-periods-fast-readers")
+		if problem != "" {
+			p := rec.Violation("TestC18Torn", map[string]interface{}{"descending": descending, "paced": paced, "pollers": pollers, "problem": problem})
+			t.Fatalf("C18 with 4 observers (shared counter, descending=%v, paced=%v) and %d fast readers: %s; replay %s", descending, paced, pollers, problem, p)
+		}
+		if total != made {
+			p := rec.Violation("TestC18Torn", map[string]interface{}{"observed": made, "reported_sum": total, "reads": reads})
+			t.Fatalf("C18 with 4 observers and %d fast readers: %d observations made, the counts of all %d reports sum to %d; replay %s", pollers, made, reads, total, p)
+		}
+		if round < 2 {
+			rec.Sample(true, map[string]interface{}{"torn_reads": reads, "non_empty_periods": nonEmpty, "periods_of_at_most_8": small, "observations": made, "paced": paced, "readers": pollers})
+		}
+	}
+}
+
 // TestC18Concurrent: concurrent observers and a concurrent reader; no
 // observation may be lost or double counted across the buffer swap.
 func TestC18Concurrent(t *testing.T) {
